@@ -11,8 +11,7 @@ inductive Derives (s : Bytes) : Re → Nat → Nat → Prop
   | eps (i : Nat) : Derives s .eps i i
   | cls {neg : Bool} {rs : List (UInt8 × UInt8)} {i : Nat} {b : UInt8} :
       s[i]? = some b → inCls neg rs b = true → Derives s (.cls neg rs) i (i + 1)
-  | bol : Derives s .bol 0 0
-  | eol : Derives s .eol s.length s.length
+  | look {k : Look} {i : Nat} : holds s k i = true → Derives s (.look k) i i
   | cat {a b : Re} {i j k : Nat} : Derives s a i j → Derives s b j k → Derives s (.cat a b) i k
   | altL {a b : Re} {i j : Nat} : Derives s a i j → Derives s (.alt a b) i j
   | altR {a b : Re} {i j : Nat} : Derives s b i j → Derives s (.alt a b) i j
@@ -30,5 +29,14 @@ inductive Sub : Re → Nat → Re → Prop
   | altL {a b : Re} {m : Nat} {x : Re} : Sub a m x → Sub (.alt a b) m x
   | altR {a b : Re} {m : Nat} {x : Re} : Sub b m x → Sub (.alt a b) m x
   | star {g : Bool} {a : Re} {m : Nat} {x : Re} : Sub a m x → Sub (.star g a) m x
+
+end Rare.C02.Rx
+
+namespace Rare.C02.Rx
+
+/-- `k` matches of `a` in a row cover `s[i:j]` -/
+inductive Pow (s : Bytes) (a : Re) : Nat → Nat → Nat → Prop
+  | zero (i : Nat) : Pow s a 0 i i
+  | succ {k i j l : Nat} : Derives s a i j → Pow s a k j l → Pow s a (k + 1) i l
 
 end Rare.C02.Rx
